@@ -258,6 +258,24 @@ func TestC19Callable(t *testing.T) {
 		}
 		fnType := reflect.FuncOf(ins, outs, variadic)
 		doPanic := rapid.IntRange(0, 9).Draw(t, "fnPanics") == 0
+		// whatever the called function panics with is the caller's business: it must arrive unchanged, also when it
+		// looks like something the reflect package or the runtime might have raised
+		var panicVal any = c19Sentinel
+		if doPanic {
+			switch rapid.IntRange(0, 5).Draw(t, "panicValue") {
+			case 1:
+				panicVal = &reflect.ValueError{Method: "reflect.Value.Len", Kind: reflect.Int}
+			case 2:
+				panicVal = "reflect: call of reflect.Value.Call on zero Value"
+			case 3:
+				panicVal = "reflect.Value.Interface: cannot return value obtained from unexported field or method"
+			case 4:
+				panicVal = fmt.Errorf("bigbuff.callable args error: %w", c19Sentinel)
+			case 5:
+				_, pv := vkit.Call(func() any { var a []int; return a[len(a)+1] }) // a genuine runtime.Error
+				panicVal = pv
+			}
+		}
 
 		var (
 			calls int
@@ -267,7 +285,7 @@ func TestC19Callable(t *testing.T) {
 			calls++
 			got = args
 			if doPanic {
-				panic(c19Sentinel)
+				panic(panicVal)
 			}
 			return outVals
 		})
@@ -675,7 +693,7 @@ func TestC19Callable(t *testing.T) {
 		}
 
 		if pv != nil {
-			if expectCall && doPanic && pv == any(c19Sentinel) && calls == 1 {
+			if expectCall && doPanic && pv == panicVal && calls == 1 {
 				// the callee's own panic propagates unchanged — allowed
 			} else {
 				sig := "C19/panic/other"
